@@ -236,7 +236,7 @@ def check_C18(c):
     for ln, cnt in _q(c, [(5, 4000), (6, 3000)], [(6, 100000), (7, 50000), (8, 30000)]):
         for s in gen.sample_strings(c.rng, aa, ln, cnt):
             jobs.append(('tr_eval', dict(s=s)))
-    traces = pmake(jobs)
+    traces = pmake(jobs, optimized_share=0.02)     # the module asserts on its argument types: results may not depend on that
     c.judge('J_Syntax', traces, 'const', nontrivial=lambda t: len(t['s']) >= 1)
     c.rule = ('quote: every string up to length %d over %d characters (quotes, backslash, controls, line separators, delimiters, '
               'non-ASCII) plus random strings up to 40 characters and numbers/None; evaluate/type: every atom text up to length %d '
